@@ -166,7 +166,7 @@ def _compare(r, spec, tag):
         if not ao.axes_identical(x, y, rtol=BASE_RTOL if where == "base" else 0.0):
             raise Violation(
                 f"{tag}: axis {i} changed: wrote {ao.describe_axis(y)}, read {ao.describe_axis(x)}",
-                ("axis", where, type(y).__name__ if where == "ensemble" else typ),
+                ("axis", where),
             )
         if not (x == y):
             raise Violation(f"{tag}: axis {i} does not compare equal (==): {ao.describe_axis(y)}", ("axis_eq", type(y).__name__))
